@@ -28,7 +28,8 @@ SPEC = {
         {"pkg": "internal/corerad", "test": "TestVerifC20", "newgo": True, "timeout": 1200},
         # when the real Advertiser reports ready: after its first complete initialisation, never for a failed one
         {"pkg": "internal/corerad", "test": "TestVerifC20Ready", "newgo": True, "timeout": 300},
-    ],
+        # the daemon end to end: the real main() in a child process, private network namespace, veth pair
+        {"pkg": "cmd/corerad", "test": "TestVerifE2E", "timeout": 300, "arch386": []}],
     "rule": "BuildTasks: every advertise/monitor flag combination for 0-3 interfaces x debug on/off, then random lists of 0-8 "
             "interfaces with repeating names. Serve: the real Serve under synctest (virtual time) with scripted tasks of the classes "
             "{until-cancelled, ready-at-once, fails, fails-before-ready, returns-early, slow-to-stop, fails-while-stopping, "
